@@ -190,13 +190,20 @@ package compile
 //@   callsite inmap(assigned, name)
 //@   loop 0 invariant inmap(assigned, name) && forallstr(k, implies(old(inmap(assigned, k)), inmap(assigned, k)))
 
+// group_map is the set of groupings on the current chain of uses: a grouping that is met again while it is on the
+// chain is a cycle (an error, never a normal return of nil); every recursive call is made with the current grouping
+// on the chain; on return the chain is what it was. usesWithin collects the uses statements of a whole body.
+//@ func usesWithin
+//@   requires n != nil
+//@   ensures forall(i, 0, len(result), result[i] != nil)
+//@   loop 0 invariant forall(i, 0, len(out), out[i] != nil) && (len(out) == 0 || isfresh(out))
 //@ func (*Compiler).validateGrouping
 //@   requires c != nil && g != nil && group_map != nil
 //@   modifies *
 //@   ensures implies(old(inmap(group_map, node_name(g))), result != nil)
-//@   ensures forallstr(k, implies(old(inmap(group_map, k)), inmap(group_map, k)))
+//@   ensures forallstr(k, inmap(group_map, k) == old(inmap(group_map, k)))
 //@   callsite inmap(group_map, node_name(g))
-//@   loop 0 invariant inmap(group_map, node_name(g)) && forallstr(k, implies(old(inmap(group_map, k)), inmap(group_map, k)))
+//@   loop 0 invariant inmap(group_map, node_name(g)) && forallstr(k, implies(k != node_name(g), inmap(group_map, k) == old(inmap(group_map, k))))
 
 // Typedef chains: BuildType and BuildBaseType are mutually recursive along a chain of typedefs. The typedef
 // being resolved (t18 = refType) is marked in c.typedefChain before the recursion and was not marked when this
